@@ -286,53 +286,52 @@ def expr_live(asm, expr, must=False):
     branch of a conditional expression, the later operands of `and` / `or` and the element of a filtered
     comprehension are evaluated only if the deciding sub-expressions allow it — `a if t else b`, `t and a`,
     `[a for x in xs if t]` spell the same guard as `if t: a`.  -> list of CFG nodes at which it is evaluated."""
+    return [i for i in asm.live(expr) if sub_live(asm, expr, i, must)]
+
+
+def sub_live(asm, expr, i, must=False):
+    """The part of expr_live below statement level: given that the statement containing `expr` runs at CFG node `i`,
+    is `expr` evaluated (on some evaluation: must=False; on every evaluation: must=True)?"""
     fa = asm.fa
-    ids = asm.live(expr)
-    if not ids:
-        return []
-    out = []
-    for i in ids:
-        ok = True
-        n = expr
-        while ok and n is not None and not isinstance(n, ast.stmt):
-            p = fa.pm.get(n)
-            if isinstance(p, ast.IfExp) and n is not p.test:
-                t = asm.truth(p.test, i)
-                want = n is p.body
-                if (t is (not want)) or (must and t is not want):
+    ok = True
+    n = expr
+    while ok and n is not None and not isinstance(n, ast.stmt):
+        p = fa.pm.get(n)
+        if isinstance(p, ast.IfExp) and n is not p.test:
+            t = asm.truth(p.test, i)
+            want = n is p.body
+            if (t is (not want)) or (must and t is not want):
+                ok = False
+        elif isinstance(p, ast.BoolOp) and n is not p.values[0]:
+            k = [j for j, v in enumerate(p.values) if v is n][0]
+            cont = isinstance(p.op, ast.And)          # evaluation continues while operands are `cont`
+            for v in p.values[:k]:
+                t = asm.truth(v, i)
+                if (t is (not cont)) or (must and t is not cont):
                     ok = False
-            elif isinstance(p, ast.BoolOp) and n is not p.values[0]:
-                k = [j for j, v in enumerate(p.values) if v is n][0]
-                cont = isinstance(p.op, ast.And)          # evaluation continues while operands are `cont`
-                for v in p.values[:k]:
-                    t = asm.truth(v, i)
-                    if (t is (not cont)) or (must and t is not cont):
-                        ok = False
-            elif isinstance(p, (ast.ListComp, ast.SetComp, ast.GeneratorExp, ast.DictComp)) and not isinstance(n, ast.comprehension):
-                # the element: once per item that passes every filter
-                if must or any(asm.truth(c, i) is False for g in p.generators for c in g.ifs):
+        elif isinstance(p, (ast.ListComp, ast.SetComp, ast.GeneratorExp, ast.DictComp)) and not isinstance(n, ast.comprehension):
+            # the element: once per item that passes every filter
+            if must or any(asm.truth(c, i) is False for g in p.generators for c in g.ifs):
+                ok = False
+        elif isinstance(p, ast.comprehension):
+            comp = fa.pm.get(p)
+            gens = list(getattr(comp, "generators", [p]))
+            k = [j for j, g in enumerate(gens) if g is p][0] if any(g is p for g in gens) else 0
+            earlier = [c for g in gens[:k] for c in g.ifs]
+            if n is p.iter:
+                # the first iterable is evaluated eagerly; a later one once per item of the earlier generators
+                if k > 0 and (must or any(asm.truth(c, i) is False for c in earlier)):
                     ok = False
-            elif isinstance(p, ast.comprehension):
-                comp = fa.pm.get(p)
-                gens = list(getattr(comp, "generators", [p]))
-                k = [j for j, g in enumerate(gens) if g is p][0] if any(g is p for g in gens) else 0
-                earlier = [c for g in gens[:k] for c in g.ifs]
-                if n is p.iter:
-                    # the first iterable is evaluated eagerly; a later one once per item of the earlier generators
-                    if k > 0 and (must or any(asm.truth(c, i) is False for c in earlier)):
-                        ok = False
-                else:
-                    j = [x for x, c in enumerate(p.ifs) if c is n]
-                    earlier = earlier + (p.ifs[:j[0]] if j else [])
-                    if must or any(asm.truth(c, i) is False for c in earlier):
-                        ok = False
-            elif isinstance(p, ast.Lambda):
-                if must:
+            else:
+                j = [x for x, c in enumerate(p.ifs) if c is n]
+                earlier = earlier + (p.ifs[:j[0]] if j else [])
+                if must or any(asm.truth(c, i) is False for c in earlier):
                     ok = False
-            n = p
-        if ok:
-            out.append(i)
-    return out
+        elif isinstance(p, ast.Lambda):
+            if must:
+                ok = False
+        n = p
+    return ok
 
 
 NONNULL_CALLS = ("get_versioned_key", "output")     # DataSource API: return a VersionedDataSourceKey, never None
